@@ -118,6 +118,11 @@ eps! {
     50, "SigningKeyPair::gen_locked_keypair", true, true;
     51, "SigningKeyPair::gen_readonly_locked_keypair", true, true;
     52, "Locked<HeapByteArray<24>>::gen (protected Nonce)", true, true;
+    53, "rng::randombytes_buf(257)", false, true;
+    54, "rng::randombytes_buf(1000)", false, true;
+    55, "rng::copy_randombytes(513)", false, true;
+    56, "rng::copy_randombytes(4097)", false, true;
+    57, "rng::randombytes_buf(64..5000)", false, false;
 }
 
 pub fn available_eps() -> Vec<u16> {
@@ -306,6 +311,19 @@ impl RngWorld {
                 id(c)
             }
             43 => id(dryoc::dryocstream::Header::gen().to_vec()),
+            53 => id(dryoc::rng::randombytes_buf(257)),
+            54 => id(dryoc::rng::randombytes_buf(1000)),
+            55 => {
+                let mut b = vec![0u8; 513];
+                dryoc::rng::copy_randombytes(&mut b);
+                id(b)
+            }
+            56 => {
+                let mut b = vec![0u8; 4097];
+                dryoc::rng::copy_randombytes(&mut b);
+                id(b)
+            }
+            57 => id(dryoc::rng::randombytes_buf(64 + (arg % 4937) as usize)),
             #[cfg(feature = "nightly")]
             44..=52 => {
                 use dryoc::protected::*;
@@ -469,6 +487,14 @@ impl World for RngWorld {
         } else {
             // never put real random bytes into the run digest
             out.note(&format!("call {} (real generator) component_len {}", info.name, co.component.len()));
+        }
+        if co.component.len() >= 32 {
+            let n = co.component.len();
+            for (what, part) in [("first", &co.component[..16]), ("last", &co.component[n - 16..])] {
+                if part.iter().all(|b| *b == 0) {
+                    out.violate("C11", "c11.nonzero", site(&[("entry", info.name), ("configuration", mode)]), format!("the {} 16 bytes of the {}-byte value returned by {} are all zero", what, n, info.name));
+                }
+            }
         }
         if co.component.len() >= 8 && co.component.iter().all(|b| *b == 0) {
             out.violate("C11", "c11.nonzero", site(&[("entry", info.name), ("configuration", mode)]), format!("{} returned an all-zero {}-byte value", info.name, co.component.len()));
